@@ -13,6 +13,7 @@ import (
 	"fmt"
 	"runtime/debug"
 	"strings"
+	"time"
 
 	"verif/harness/internal/hx"
 )
@@ -32,17 +33,39 @@ func (o outcome) impl() string {
 	return o.class
 }
 
-func guard(f func() (string, error)) (o outcome) {
-	defer func() {
-		if e := recover(); e != nil {
-			o = outcome{class: "panic", msg: fmt.Sprint(e), stack: string(debug.Stack())}
+// callDeadline bounds one call into the library. The calls take microseconds; a call that has not come
+// back after this long (on however busy a machine) is in an endless loop. It cannot be stopped: the
+// engine reports the case and ends (stopEngine), so that the verdict comes at once and with the input.
+const callDeadline = 30 * time.Second
+
+// stopEngine is the panic value that unwinds the generators after a call that did not return.
+type stopEngine struct{}
+
+func guard(f func() (string, error)) outcome {
+	ch := make(chan outcome, 1)
+	go func() {
+		var o outcome
+		defer func() {
+			if e := recover(); e != nil {
+				o = outcome{class: "panic", msg: fmt.Sprint(e), stack: string(debug.Stack())}
+			}
+			ch <- o
+		}()
+		v, err := f()
+		if err != nil {
+			o = outcome{class: "err", msg: err.Error()}
+			return
 		}
+		o = outcome{class: "ok", val: v}
 	}()
-	v, err := f()
-	if err != nil {
-		return outcome{class: "err", msg: err.Error()}
+	t := time.NewTimer(callDeadline)
+	defer t.Stop()
+	select {
+	case o := <-ch:
+		return o
+	case <-t.C:
+		return outcome{class: "timeout", msg: fmt.Sprintf("the call did not return within %v", callDeadline)}
 	}
-	return outcome{class: "ok", val: v}
 }
 
 func hexs(b []byte) string { return hx.Hex(b) }
@@ -90,6 +113,12 @@ func knownTag(o outcome) string {
 // verdict: the property oracle for one case (no panic), plus evidence bookkeeping
 func verdict(c *hx.Ctx, id, op string, o outcome, desc string) {
 	c.Stat(op + "=" + o.class)
+	if o.class == "timeout" {
+		// termination is part of the property: report this input now; the goroutine inside the library
+		// spins on, so nothing more can be run in this process
+		c.Fail(id, "-", op+": "+o.msg+" (endless loop)", desc)
+		panic(stopEngine{})
+	}
 	if o.class == "panic" {
 		c.Fail(id, knownTag(o), op+": panic: "+o.msg, desc)
 	} else {
@@ -101,6 +130,15 @@ func verdict(c *hx.Ctx, id, op string, o outcome, desc string) {
 }
 
 func Run(c *hx.Ctx) {
+	defer func() {
+		if e := recover(); e != nil {
+			if _, ok := e.(stopEngine); ok {
+				c.Note("parsers: stopped after a call into the library that did not return; the remaining cases were not run")
+				return
+			}
+			panic(e)
+		}
+	}()
 	g := probe(c)
 	runExt4(c)
 	runFat(c, g)
